@@ -172,7 +172,21 @@ impl Handler {
     }
 
     async fn serve(&mut self, store: &Store, mut recver: tokio::sync::mpsc::Receiver<Frame>) {
-        while let Some(frame) = recver.recv().await {
+        loop {
+            let Some(frame) = recver.recv().await else {
+                // The subscription ended under us (e.g. the handler fell too far behind):
+                // a stopped handler is always announced
+                let _ = store.append(
+                    Frame::builder(format!("{}.unregistered", self.topic), self.context_id)
+                        .meta(serde_json::json!({
+                            "handler_id": self.id.to_string(),
+                            "error": "handler subscription ended",
+                        }))
+                        .build(),
+                );
+                break;
+            };
+
             // Skip registration activity that occurred before this handler was registered
             if (frame.topic == format!("{}.register", self.topic)
                 || frame.topic == format!("{}.unregister", self.topic))
